@@ -170,6 +170,10 @@ fn kind_tables(ctx: &mut Ctx) {
     near.push("datetime".into());
     near.push("DateTime".into());
     near.push("xStr".into());
+    // names other systems use for the same kinds
+    for alias in ["string", "String", "boolean", "Bool", "int", "integer", "float", "double", "num", "Number", "date_time", "timestamp", "ts", "reference", "id", "sym", "tag", "bin", "Bin", "array", "vector", "object", "map", "record", "table", "none", "nil", "nan", "NA", "N", "M", "T", "F", "coordinate", "geo", "url", "link", "x", "remove_", "_remove", "mark", "Marker", "NULL", "Null"] {
+        near.push(alias.to_string());
+    }
     for n in near {
         if KIND_NAMES.contains(&n.as_str()) {
             continue;
@@ -362,7 +366,9 @@ fn check_grid_build(ctx: &mut Ctx, rng: &mut Rng, idx: u64) {
         let n = rng.below(6);
         let mut dm = crate::model::MDict::new();
         for _ in 0..n {
-            dm.insert(gen_key(rng), gen_value(rng, 1));
+            // (tag names are any strings here: now and then names that sort differently by code point and by UTF-16 code unit)
+            let key = if rng.chance(1, 12) { (*rng.pick::<&str>(&["ab\u{ff21}", "ab\u{1f600}", "ab\u{e000}", "\u{10000}", "\u{ffff}", "\u{fffd}x", "\u{1f600}"])).to_string() } else { gen_key(rng) };
+            dm.insert(key, gen_value(rng, 1));
         }
         let v = to_value_with(&MVal::Dict(dm.clone()), 0);
         if let Value::Dict(d) = v {
